@@ -1,5 +1,6 @@
 import SimilarVerif.Lemmas.LcsMinimal
 import SimilarVerif.Lemmas.Compact
+import SimilarVerif.Lemmas.Capture
 import SimilarVerif.Model.Common
 /-!
 # C03 — Myers and LCS report a shortest edit script; ratio = 2·LCS/(N+M)
@@ -59,5 +60,13 @@ theorem ratio_is_2L (ops : List Op) (a b L : Nat) (h : nEq ops = L) : ratioPair 
     | nil => rfl
     | cons x xs ih => cases x <;> simp [sumEqual, nEq, ih]
   rw [this]
+
+end SimilarVerif.C03
+
+namespace SimilarVerif.C03
+open SimilarVerif Spec
+
+/-- **LCS stays minimal after the capture pipeline's clean-up** -/
+theorem capture_lcs_minimal : type_of% @CaptureP.capture_lcs_minimal := @CaptureP.capture_lcs_minimal
 
 end SimilarVerif.C03
